@@ -13,6 +13,7 @@ parameter or never-read value is how a dropped restriction shows in the code sha
 is no longer used, a computed guard that is no longer consulted).
 """
 import ast
+from .astutil import if_chain
 import json
 import os
 from .core import AnalysisError
@@ -34,6 +35,63 @@ ALLOWED_PARAMS = {
 ALLOWED_LOCALS = {
     ('chython.algorithms.standardize.saturation', '_find_possible_valences', 'b'): 'walrus inside a filter whose value is only tested',
 }
+ALLOWED_DEAD_UPDATES = {
+    ('chython.files.mdl.rxn', 'parse_rxn_v2000', 'reagents_count'): 'the total is consumed by range() before the loop; the decrement keeps the three counters of a dropped component in step',
+    ('chython.files.mdl.erxn', 'parse_rxn_v3000', 'reagents_count'): 'same bookkeeping in the V3000 sibling',
+}
+
+
+def _swap_pair(t1, t2):
+    """(x, y) when test t2 is test t1 with the names x and y exchanged (and differs from it), else None"""
+    n1 = [n.id for n in ast.walk(t1) if isinstance(n, ast.Name)]
+    n2 = [n.id for n in ast.walk(t2) if isinstance(n, ast.Name)]
+    if len(n1) != len(n2) or ast.dump(_blank(t1)) != ast.dump(_blank(t2)):
+        return None
+    pairs = {(a, b) for a, b in zip(n1, n2) if a != b}
+    if len(pairs) == 1:
+        (a, b), = pairs
+        return (a, b) if b not in n1 else None  # `x in S` vs `y in S`
+    if len(pairs) == 2:
+        (a, b), (c, d) = sorted(pairs)
+        if (a, b) == (d, c):
+            return a, b
+    return None
+
+
+def _blank(node):
+    import copy as _copy
+    node = _copy.deepcopy(node)
+    for n in ast.walk(node):
+        if isinstance(n, ast.Name):
+            n.id = '_'
+    return node
+
+
+def _swapped(node, x, y):
+    import copy as _copy
+    node = _copy.deepcopy(node)
+    for n in ast.walk(node):
+        if isinstance(n, ast.Name) and n.id in (x, y):
+            n.id = y if n.id == x else x
+    return node
+
+
+def _name_mismatches(a, b, names):
+    """None when the trees differ in anything but Name identifiers drawn from `names`; else (agreeing positions over names, [(found, expected)])"""
+    if ast.dump(_blank(a)) != ast.dump(_blank(b)):
+        return None
+    na = [n.id for n in ast.walk(a) if isinstance(n, ast.Name)]
+    nb = [n.id for n in ast.walk(b) if isinstance(n, ast.Name)]
+    agree, bad = 0, []
+    for p, q in zip(na, nb):
+        if p == q:
+            if p in names:
+                agree += 1
+        elif p in names and q in names:
+            bad.append((q, p))
+        else:
+            return None
+    return agree, bad
 
 
 def _functions(tree):
@@ -211,6 +269,66 @@ def rule_hygiene(ck, repo, R, pid, extra_modules=()):
                                                                                   f'branch was written to use is ignored (another variable is used in its place?)',
                            file=m.relpath, line=st.lineno, func=qual, construct=src(st.test)[:100])
     ck.count(f'{R}: walrus bindings in tests', n_wal)
+    # H6 an augmented assignment `x op= e` to a local whose new value can never be read afterwards (forward, through loop back edges, closures) is a write
+    # into the wrong variable: the accumulator the block was building misses the contribution
+    from .normalize import live_after
+    n_aug = 0
+    for m in mods:
+        for qual, fn in _functions(m.tree):
+            declared = {nm for n in ast.walk(fn) if isinstance(n, (ast.Global, ast.Nonlocal)) for nm in n.names}
+            nested_reads = {x.id for d in ast.walk(fn) if isinstance(d, (ast.FunctionDef, ast.Lambda, ast.AsyncFunctionDef)) and d is not fn
+                            for x in ast.walk(d) if isinstance(x, ast.Name) and isinstance(x.ctx, ast.Load)}
+
+            def scan(owner, stmts, stack):
+                nonlocal n_aug
+                for i, st in enumerate(stmts):
+                    here = stack + [(owner, stmts, i)]
+                    if isinstance(st, ast.AugAssign) and isinstance(st.target, ast.Name) and st.target.id not in declared and st.target.id not in nested_reads:
+                        n_aug += 1
+                        if not live_after(here, st.target.id) and (m.name, qual.rsplit('.', 1)[-1], st.target.id) not in ALLOWED_DEAD_UPDATES:
+                            ck.bad(R, f'dead-update:{m.name}:{qual}:{src(st)[:60]}', f'{qual}: `{src(st)[:80]}` updates `{st.target.id}`, which nothing reads afterwards (the neighbouring '
+                                                                                     f'statements accumulate into another variable): the contribution is lost',
+                                   file=m.relpath, line=st.lineno, func=qual, construct=src(st)[:100])
+                    if isinstance(st, (ast.FunctionDef, ast.AsyncFunctionDef, ast.ClassDef)):
+                        continue
+                    for field in ('body', 'orelse', 'finalbody'):
+                        blk = getattr(st, field, None)
+                        if isinstance(blk, list) and blk and isinstance(blk[0], ast.stmt):
+                            scan(st, blk, here)
+                    for h in getattr(st, 'handlers', []) or []:
+                        scan(st, h.body, here)
+            scan(fn, fn.body, [])
+    ck.count(f'{R}: augmented assignments to locals', n_aug)
+    # H7 twin branches: two arms of one if-ladder whose tests are each other's image under swapping two names (a1 <-> a2) and whose bodies have the same
+    # shape must be each other's image under the same swap; a name left unswapped in one arm is a copy-paste slip
+    n_twin = 0
+    for m in mods:
+        for qual, fn in _functions(m.tree):
+            for top in ast.walk(fn):
+                if not isinstance(top, ast.If):
+                    continue
+                arms = [(t, b) for t, b in if_chain(top) if t is not None]
+                for i in range(len(arms)):
+                    for j in range(i + 1, len(arms)):
+                        sw = _swap_pair(arms[i][0], arms[j][0])
+                        if sw is None:
+                            continue
+                        x, y = sw
+                        bi = [_swapped(st, x, y) for st in arms[i][1]]
+                        bj = list(arms[j][1])
+                        k = min(len(bi), len(bj))  # one arm may start with an extra case of its own: the common tail is what mirrors
+                        bi, bj = bi[-k:], bj[-k:]
+                        diff = _name_mismatches(ast.Module(body=bi, type_ignores=[]), ast.Module(body=list(bj), type_ignores=[]), {x, y})
+                        if diff is None:
+                            continue  # different shapes: not twins
+                        n_twin += 1
+                        agree, bad = diff
+                        if bad and agree:
+                            ck.bad(R, f'twin:{m.name}:{qual}:{src(arms[j][0])[:50]}', f'{qual}: the arms `{src(arms[i][0])[:60]}` and `{src(arms[j][0])[:60]}` mirror each other under '
+                                                                                     f'{x} <-> {y} except for {bad} (expected {[("%s" % b[1]) for b in bad]} in the second arm): one side was '
+                                                                                     f'copied without swapping the name',
+                                   file=m.relpath, line=arms[j][0].lineno, func=qual, construct=src(arms[j][0])[:100])
+    ck.count(f'{R}: mirrored twin arms', n_twin)
     ck.ok(R, 'parameters', f'{n_par} parameters read ({len(ALLOWED_PARAMS)} frozen exceptions)')
     ck.ok(R, 'assignments', f'{n_loc} plain assignments read')
     ck.count(f'{R}: parameters', n_par)
